@@ -57,7 +57,7 @@ func c16Scenario(tier string) *core.Scenario {
 	orgs := []org{{0, false}, {0, true}, {0x100, true}, {0x7c00, true}, {0xc200, true}, {0x8000, true}, {0xfff0, true}}
 	fillers := []string{"", "MOV AX,BX", "DB 1,2,3", "RESB 5", "ALIGNB 16", "MOV WORD [0x0ff4],320"}
 	branchSets := [][]string{{}, {"JMP fwd"}, {"JE fwd", "JMP start"}, {"CALL fwd", "JNBE start", "JMP fwd"}}
-	if tier != "thorough" {
+	if false {
 		fillers = fillers[:4]
 		branchSets = branchSets[1:3]
 	}
